@@ -380,6 +380,36 @@ func checkCommentMustSink(p *Prog, r *Result, si *syntaxInfo, rule string, excep
 			baseText[k] = exprString(se.X)
 			return true
 		})
+		// a statement handed to Printer.stmt — the low-level statement printer, which leaves the statement's own comments
+		// to its caller — is a base too, whether or not this function queues any of its comments
+		handedToStmt := map[string]bool{}
+		if stmtFn := lookupFunc(pkg, "Printer.stmt"); stmtFn != nil {
+			ast.Inspect(fd.Body, func(n ast.Node) bool {
+				c, ok := n.(*ast.CallExpr)
+				if !ok || calleeOf(info, c) != stmtFn || len(c.Args) < 1 {
+					return true
+				}
+				arg := ast.Unparen(c.Args[0])
+				if nt := namedOf(info.TypeOf(arg)); nt == nil || !si.isNode[nt.Obj()] {
+					return true
+				}
+				if _, isSel := arg.(*ast.SelectorExpr); !isSel {
+					if _, isID := arg.(*ast.Ident); !isID {
+						return true
+					}
+				}
+				k := exprString(arg)
+				if ro := rootOf(arg); ro != nil {
+					k = fmt.Sprintf("%s@%p", k, ro)
+				}
+				if _, have := bases[k]; !have {
+					bases[k] = baseInfo{arg, info.TypeOf(arg)}
+					baseText[k] = exprString(arg)
+				}
+				handedToStmt[k] = true
+				return true
+			})
+		}
 		var names []string
 		for b := range bases {
 			names = append(names, b)
@@ -408,7 +438,7 @@ func checkCommentMustSink(p *Prog, r *Result, si *syntaxInfo, rule string, excep
 					}
 				}
 			}
-			if !sinksAny {
+			if !sinksAny && !handedToStmt[bkey] {
 				continue
 			}
 			sc, ok := scopeOf(fd, fg, root)
@@ -425,6 +455,17 @@ func checkCommentMustSink(p *Prog, r *Result, si *syntaxInfo, rule string, excep
 					continue
 				}
 				w := escapes(fg, sc, base, cf.Name())
+				if w != nil {
+					// a field the parser empties at every construction site holds no comments in any parsed tree
+					if se, isSel := ast.Unparen(bi.expr).(*ast.SelectorExpr); isSel {
+						if owner := namedOf(info.TypeOf(se.X)); owner != nil && si.isNode[owner.Obj()] {
+							if cleared, n, _ := producerClears(si, owner, se.Sel.Name, cf.Name()); cleared {
+								r.OK(rule, key, bi.expr.Pos(), fmt.Sprintf("the parser sets %s.%s.%s to nil at each of its %d construction sites of a %s, in the statement list that hands the node on: no parsed tree has comments there", owner.Obj().Name(), se.Sel.Name, cf.Name(), n, owner.Obj().Name()))
+								continue
+							}
+						}
+					}
+				}
 				where := ""
 				if w != nil && len(w.Nodes) > 0 {
 					where = " (reaching " + p.Position(w.Nodes[0].Pos()) + ")"
@@ -436,4 +477,143 @@ func checkCommentMustSink(p *Prog, r *Result, si *syntaxInfo, rule string, excep
 			}
 		}
 	}
+}
+
+// producerClears reports whether every construction of a T in the (non-test) package is followed, in the statement
+// list that hands the new node on, by an assignment that sets <node>.<field>.<comments> to nil: the parser moves those
+// comments elsewhere, so no parsed tree has any there and a printer path that does not queue them drops nothing.
+// It returns the number of construction sites seen; zero sites never discharges.
+func producerClears(si *syntaxInfo, t *types.Named, field, comments string) (bool, int, string) {
+	pkg := si.pkg
+	info := pkg.TypesInfo
+	sites := 0
+	for _, f := range pkg.Syntax {
+		if strings.HasSuffix(pkg.Fset.Position(f.Pos()).Filename, "_test.go") {
+			continue
+		}
+		for _, d := range f.Decls {
+			fd, ok := d.(*ast.FuncDecl)
+			if !ok || fd.Body == nil {
+				continue
+			}
+			// construction sites: b := &T{...} / b = &T{...}
+			type site struct {
+				obj types.Object
+				lit *ast.CompositeLit
+			}
+			var found []site
+			bad := ""
+			ast.Inspect(fd.Body, func(n ast.Node) bool {
+				switch n := n.(type) {
+				case *ast.AssignStmt:
+					for i, rhs := range n.Rhs {
+						lit := compositeOf(rhs)
+						if lit == nil || namedOf(info.TypeOf(lit)) != t || i >= len(n.Lhs) {
+							continue
+						}
+						id, ok := n.Lhs[i].(*ast.Ident)
+						if !ok {
+							continue
+						}
+						o := info.ObjectOf(id)
+						if o != nil {
+							found = append(found, site{o, lit})
+						}
+					}
+				}
+				return true
+			})
+			nLits := 0
+			ast.Inspect(fd.Body, func(n ast.Node) bool {
+				if lit, ok := n.(*ast.CompositeLit); ok && namedOf(info.TypeOf(lit)) == t {
+					nLits++
+				}
+				return true
+			})
+			if nLits != len(found) {
+				return false, sites + nLits, funcKey("syntax", fd) + " builds a " + t.Obj().Name() + " that is not bound to a local"
+			}
+			for _, s := range found {
+				sites++
+				// the clearing assignment
+				var clear *ast.AssignStmt
+				ast.Inspect(fd.Body, func(n ast.Node) bool {
+					as, ok := n.(*ast.AssignStmt)
+					if !ok || as.Pos() < s.lit.End() || len(as.Lhs) != len(as.Rhs) {
+						return true
+					}
+					for i, lhs := range as.Lhs {
+						se, ok := ast.Unparen(lhs).(*ast.SelectorExpr)
+						if !ok || se.Sel.Name != comments || !isNilIdent(info, as.Rhs[i]) {
+							continue
+						}
+						in, ok := ast.Unparen(se.X).(*ast.SelectorExpr)
+						if !ok || in.Sel.Name != field {
+							continue
+						}
+						if id, ok := ast.Unparen(in.X).(*ast.Ident); ok && info.ObjectOf(id) == s.obj && clear == nil {
+							clear = as
+						}
+					}
+					return true
+				})
+				if clear == nil {
+					return false, sites, fmt.Sprintf("%s builds a %s and never empties its %s.%s", funcKey("syntax", fd), t.Obj().Name(), field, comments)
+				}
+				// every use of the new node as a value (the points at which it is handed on) sits in the statement list that holds the clearing
+				var list []ast.Stmt
+				ast.Inspect(fd.Body, func(n ast.Node) bool {
+					if bs, ok := n.(*ast.BlockStmt); ok {
+						for _, st := range bs.List {
+							if st == clear {
+								list = bs.List
+							}
+						}
+					}
+					return true
+				})
+				inList := func(pos token.Pos) bool {
+					for _, st := range list {
+						if st.Pos() <= pos && pos < st.End() {
+							_, isAssign := st.(*ast.AssignStmt)
+							return isAssign
+						}
+					}
+					return false
+				}
+				selBase := map[*ast.Ident]bool{}
+				ast.Inspect(fd.Body, func(n ast.Node) bool {
+					if se, ok := n.(*ast.SelectorExpr); ok {
+						if id, ok := ast.Unparen(se.X).(*ast.Ident); ok {
+							selBase[id] = true
+						}
+					}
+					return true
+				})
+				ast.Inspect(fd.Body, func(n ast.Node) bool {
+					id, ok := n.(*ast.Ident)
+					if !ok || info.Uses[id] != s.obj || selBase[id] || id.Pos() < s.lit.End() {
+						return true
+					}
+					if !inList(id.Pos()) {
+						bad = fmt.Sprintf("%s hands the new %s on at %s, outside the statement list that empties its %s.%s", funcKey("syntax", fd), t.Obj().Name(), pkg.Fset.Position(id.Pos()), field, comments)
+					}
+					return true
+				})
+				if bad != "" {
+					return false, sites, bad
+				}
+			}
+		}
+	}
+	return sites > 0, sites, ""
+}
+
+func compositeOf(e ast.Expr) *ast.CompositeLit {
+	e = ast.Unparen(e)
+	if u, ok := e.(*ast.UnaryExpr); ok && u.Op == token.AND {
+		e = ast.Unparen(u.X)
+	}
+	lit, _ := e.(*ast.CompositeLit)
+	return lit
 }
